@@ -108,12 +108,20 @@ func c14Run(c *Ctx, idx int) {
 	doc.Set("f", fv)
 	xs := &ref.Arr{}
 	rs := &ref.Arr{}
-	for k := 0; k < 1+r.Intn(6); k++ {
+	nrec := 1 + r.Intn(6)
+	if r.Chance(15) {
+		nrec = []int{13, 14, 20, 33, 40}[r.Intn(5)]
+	}
+	for k := 0; k < nrec; k++ {
 		n := c14Num(r)
 		xs.E = append(xs.E, n)
 		o := ref.NewObj()
 		o.Set("id", fmt.Sprint("r", k))
-		o.Set("k", c14Num(r))
+		kk := c14Num(r)
+		if nrec > 6 {
+			kk = ref.Num{R: new(big.Rat).SetInt64(int64(r.Intn(4)))}
+		}
+		o.Set("k", kk)
 		rs.E = append(rs.E, o)
 	}
 	doc.Set("xs", xs)
